@@ -864,6 +864,11 @@ class StrategyBase(Node):
                 if not self._paper.bankrupt:
                     self._paper.run()
                     self._paper.update(date)
+                    if self._paper.bankrupt:
+                        # declared while the algos were running: close what
+                        # the rest of the stack opened afterwards
+                        self._paper.flatten()
+                        self._paper.update(date)
             # update price
             self._price = self._paper.price
             self._prices.array[inow] = self._price
